@@ -52,7 +52,17 @@ func mask(m int) (gostatsd.TimerSubtypes, map[string]bool) {
 	return gostatsd.TimerSubtypes{CountPct: d["count"], MeanPct: d["mean"], SumPct: d["sum"], SumSquaresPct: d["sum_squares"], UpperPct: d["upper"], LowerPct: d["lower"]}, d
 }
 
-func run(c tcase) (t gostatsd.Timer, found bool, panicMsg string) {
+// disabledKeys: the mask as keys of the [disabled-sub-metrics] configuration table
+func disabledKeys(m int) map[string]bool {
+	_, d := mask(m)
+	out := map[string]bool{}
+	for k, v := range d {
+		out[map[string]string{"count": "count-pct", "mean": "mean-pct", "sum": "sum-pct", "sum_squares": "sum-squares-pct", "upper": "upper-pct", "lower": "lower-pct"}[k]] = v
+	}
+	return out
+}
+
+func runCase(c tcase) (t gostatsd.Timer, found bool, panicMsg string) {
 	t, found, _, _, panicMsg = run2(c)
 	return
 }
@@ -63,8 +73,7 @@ func run2(c tcase) (t gostatsd.Timer, found bool, sib gostatsd.Timer, sibFound b
 			panicMsg = fmt.Sprintf("%v\n%s", p, debug.Stack())
 		}
 	}()
-	sub, _ := mask(c.Mask)
-	ag := statsd.VerifWiredAggregator(statsd.Server{PercentThreshold: c.Pcts, ExpiryIntervalCounter: time.Hour, ExpiryIntervalGauge: time.Hour, ExpiryIntervalSet: time.Hour, ExpiryIntervalTimer: time.Hour, DisabledSubTypes: sub, HistogramLimit: c.HistLim})
+	ag := statsd.VerifWiredAggregator(*verifServer([]string{verifPctArg(c.Pcts), "--expiry-interval=1h", fmt.Sprintf("--timer-histogram-limit=%d", c.HistLim)}, disabledKeys(c.Mask)))
 	var tags gostatsd.Tags
 	if c.Hist {
 		tags = gostatsd.Tags{"gsd_histogram:" + c.HistTag}
